@@ -329,3 +329,112 @@ def run_childlist(prog, ctx=None):
     if res.counters.get("sites", 0) < 2:
         raise Broken("CHILDLIST: only %d sites where a built list becomes a node's children" % res.counters.get("sites", 0))
     return res
+
+
+def _owner(f, m):
+    """text of the pointer to the node whose `children` member m is"""
+    return _ptr_text(f, strip(m["b"], all_casts=True), bool(m.get("arrow")))
+
+
+def run_childkeep(prog, ctx=None):
+    """CHILDKEEP: a store `A->children = V` (V not null) into a node the function was handed replaces a child list: on the way
+    to it the old list was tested empty (the null edge of a test of `A->children` itself), saved (`x = A->children`, or its
+    address handed to a callee) or cleared (`mpt_node_clear(A)`).  Typestate with trace partitioning on A: a disjunction that
+    lets the store run with a non-empty old list (`!A->children || !other`) leaves the state unknown on one side: the
+    children that were there become unreachable while still naming A as parent."""
+    res = Result("CHILDKEEP")
+    from .ival import Analysis
+    from .rules_effect import root_of
+    n_sites = 0
+    for f in sorted(prog.functions.values(), key=lambda f: (f.file, f.line)):
+        if f.nocfg:
+            continue
+        sites = []
+        for b, i, e in f.elements():
+            for n in walk_own(e):
+                if n.get("k") == "bin" and n.get("op") == "=":
+                    l = strip(n["a"], lvalue_to_rvalue=False)
+                    if l.get("k") == "mem" and l.get("f") == "children" and l.get("rec", "").split("::")[-1] in ("mpt_node", "node") and cval(n["b"]) != 0:
+                        r = strip(n["b"], all_casts=True)
+                        if r.get("k") == "bin" and r.get("op") == "=" and cval(r) == 0:
+                            continue
+                        # a whole list is attached: the child list of another node, or what a call returned (head updates of the
+                        # link primitives, where the new head is linked to the old list, are CHILDPARENT's and LINNODE's business)
+                        whole = False
+                        for m in walk(n["b"]):
+                            if m.get("k") == "mem" and m.get("f") == "children" and _ptr_text(f, strip(m["b"], all_casts=True), bool(m.get("arrow"))) != _ptr_text(f, strip(l["b"], all_casts=True), bool(l.get("arrow"))):
+                                whole = True
+                            if m.get("k") == "call":
+                                whole = True
+                        if whole:
+                            sites.append((b, i, n, l))
+        if not sites:
+            continue
+        pids = {p["id"] for p in f.params}
+        for atext in sorted({_owner(f, l) for b, i, n, l in sites}):
+            mine = [(b, i, n, l) for b, i, n, l in sites if _owner(f, l) == atext]
+            root = root_of(mine[0][3]["b"])
+            if root not in pids and root != 0:
+                # a node created or found here: judged by CHILDPARENT / LINNODE, not a handed-in list
+                fresh = True
+                for b2, i2, m in f.walk_all():
+                    if m.get("k") == "bin" and m.get("op") == "=":
+                        ll = strip(m["a"], lvalue_to_rvalue=False)
+                        if ll.get("k") == "ref" and ll["d"].get("id") == root and root_of(m["b"]) in pids:
+                            fresh = False
+                if fresh:
+                    continue
+            PK = Analysis.PK
+
+            def is_children_of(x):
+                x = strip(x, all_casts=True)
+                return x.get("k") == "mem" and x.get("f") == "children" and _owner(f, x) == atext
+
+            def hook(an, blk, idx, el, st):
+                for n in walk_own(el):
+                    if n.get("k") == "bin" and n.get("op") == "=":
+                        l = strip(n["a"], lvalue_to_rvalue=False)
+                        if l.get("k") == "ref" and any(is_children_of(m) for m in walk(n["b"]) if m.get("k") == "mem"):
+                            st[PK] = "H"
+                        if l.get("k") == "mem" and l.get("f") == "children" and _owner(f, l) == atext:
+                            # after the store the list is the new one
+                            st[PK] = "H" if cval(n["b"]) != 0 else "E"
+                    elif n.get("k") == "decl":
+                        for v in n["vars"]:
+                            if v.get("init") is not None and any(is_children_of(m) for m in walk(v["init"]) if m.get("k") == "mem"):
+                                st[PK] = "H"
+                    elif n.get("k") == "call":
+                        nm = callee_name(n) or ""
+                        for a in n.get("args", []):
+                            s = strip(a, all_casts=True)
+                            if nm == "mpt_node_clear" and norm(show(s, f)) == atext:
+                                st[PK] = "E"
+                            if s.get("k") == "un" and s.get("op") == "&" and is_children_of(s["e"]):
+                                st[PK] = "H"
+
+            def edge_hook(an, blk, cond, truth, st):
+                c = strip(cond, all_casts=True)
+                neg = False
+                while c.get("k") == "un" and c.get("op") == "!":
+                    neg = not neg
+                    c = strip(c["e"], all_casts=True)
+                if c.get("k") == "bin" and c.get("op") == "=" :
+                    c = strip(c["b"], all_casts=True)
+                if is_children_of(c) and (truth == neg):
+                    st[PK] = "E"
+
+            an = Analysis(prog, f, hook=hook, edge_hook=edge_hook)
+            st0 = an.entry_state()
+            st0[PK] = "?"
+            an.run(state=st0)
+            for b, i, n, l in mine:
+                n_sites += 1
+                parts = an.pre_parts.get((b.id, i), {})
+                # the state before this element; the store's own hook ran after pre_parts was taken
+                bad = "?" in parts or "*" in parts
+                res.ob("%s:%s at line %s" % (f.qn, norm(show(n, f))[:50], n.get("l", f.line)), not bad, f, n.get("l", f.line) or f.line,
+                       "" if not bad else "`%s` replaces the child list of %s on a path where the old list was neither tested empty nor saved nor cleared: children that were linked there stay linked to each other and to their parent but can no longer be reached or released" % (
+                           norm(show(n, f))[:70], atext))
+    if n_sites < 2:
+        raise Broken("CHILDKEEP: only %d stores of whole lists to the children of handed-in nodes found" % n_sites)
+    return res
